@@ -103,10 +103,8 @@ Stylesheet::Stylesheet(
     m_topLevelVariables(constructionContext.getMemoryManager()),
     m_XSLTVerDeclared(1.0L),
     m_elementPatternTable(constructionContext.getMemoryManager()),
-    m_elementPatternTableEnd(m_elementPatternTable.end()),
     m_elementAnyPatternList(constructionContext.getMemoryManager()),
     m_attributePatternTable(constructionContext.getMemoryManager()),
-    m_attributePatternTableEnd(m_attributePatternTable.end()),
     m_attributeAnyPatternList(constructionContext.getMemoryManager()),
     m_textPatternList(constructionContext.getMemoryManager()),
     m_commentPatternList(constructionContext.getMemoryManager()),
@@ -1030,12 +1028,10 @@ Stylesheet::addObjectIfNotFound(
 inline const Stylesheet::PatternTableVectorType* 
 Stylesheet::locateElementMatchPatternDataList(const XalanDOMString&     theName) const
 {
-    assert(m_elementPatternTableEnd == m_elementPatternTable.end());
-
     const PatternTableMapType::const_iterator   i =
         m_elementPatternTable.find(theName);
 
-    if (i != m_elementPatternTableEnd)
+    if (i != m_elementPatternTable.end())
     {
         return &(*i).second;
     }
@@ -1050,12 +1046,10 @@ Stylesheet::locateElementMatchPatternDataList(const XalanDOMString&     theName)
 inline const Stylesheet::PatternTableVectorType* 
 Stylesheet::locateAttributeMatchPatternDataList(const XalanDOMString&   theName) const
 {
-    assert(m_attributePatternTableEnd == m_attributePatternTable.end());
-
     const PatternTableMapType::const_iterator   i =
         m_attributePatternTable.find(theName);
 
-    if (i != m_attributePatternTableEnd)
+    if (i != m_attributePatternTable.end())
     {
         return &(*i).second;
     }
